@@ -59,8 +59,8 @@ func harnessOverlay(repoDir, harnessDir string) (map[string][]byte, map[string]s
 		dir := filepath.Dir(rel)
 		base := filepath.Base(rel)
 		var target string
-		if dir == "vstub" {
-			target = filepath.Join(repoDir, "internal", "vstub", base)
+		if dir == "vstub" || dir == "vstubodb" {
+			target = filepath.Join(repoDir, "internal", dir, base)
 		} else {
 			target = filepath.Join(repoDir, dir, "zz_verif_"+base)
 		}
@@ -80,17 +80,33 @@ func loadMachine(repoDir, harnessDir string, patterns []string) (*machine, error
 	if err != nil {
 		return nil, err
 	}
+	// never let the go command rewrite /repo/go.mod (the overlay imports some
+	// indirect dependencies directly): work on a private copy of go.mod/go.sum
+	modDir, err := os.MkdirTemp("", "gosym-mod")
+	if err != nil {
+		return nil, err
+	}
+	defer os.RemoveAll(modDir)
+	for _, f := range []string{"go.mod", "go.sum"} {
+		data, err := os.ReadFile(filepath.Join(repoDir, f))
+		if err != nil {
+			return nil, err
+		}
+		if err := os.WriteFile(filepath.Join(modDir, f), data, 0o644); err != nil {
+			return nil, err
+		}
+	}
 	cfg := &packages.Config{
 		Mode: packages.NeedName | packages.NeedFiles | packages.NeedCompiledGoFiles |
 			packages.NeedImports | packages.NeedDeps | packages.NeedTypes |
 			packages.NeedSyntax | packages.NeedTypesInfo | packages.NeedTypesSizes,
 		Dir:     repoDir,
 		Overlay: ov,
-		Env:     append(os.Environ(), "GOFLAGS=-mod=mod", "GOPROXY=off", "GOSUMDB=off", "GOTOOLCHAIN=local"),
+		Env:     append(os.Environ(), "GOFLAGS=-mod=mod -modfile="+filepath.Join(modDir, "go.mod"), "GOPROXY=off", "GOSUMDB=off", "GOTOOLCHAIN=local"),
 		Tests:   false,
 	}
 	pats := append([]string{}, patterns...)
-	pats = append(pats, vstubPath)
+	pats = append(pats, vstubPath, repoModule+"/internal/vstubodb")
 	initial, err := packages.Load(cfg, pats...)
 	if err != nil {
 		return nil, fmt.Errorf("packages.Load: %w", err)
